@@ -72,14 +72,29 @@ def q(l):
 
 
 def render_file(sc, rng):
+    stmt_rules = any(r["t"] == "sren" for r in sc["rules"])
     out = ["// Package doc.\npackage %s\n\nfunc f() {\n" % sc["pkg"]]
+    ind = "\t"
+    if sc.get("copied"):
+        out.append("\trun(func() {\n")
+        ind = "\t\t"
+    out.append(ind + "first(8)\n")
     for c in sc["body"]:
         call = "%s(%s)" % (c["f"], ", ".join("x" if a == 0 else str(a) for a in c["args"]))
-        out.append(rng.choice(CONTEXTS) % call)
+        ctxs = ["\tdefer %s\n"] if stmt_rules else CONTEXTS
+        out.append(ind[1:] + rng.choice(ctxs) % call)
         if rng.random() < 0.3:
-            out.append("\tother(%d)\n" % rng.randint(3, 9))
+            out.append(ind + "other(%d)\n" % rng.randint(3, 9))
+    out.append(ind + "last(9)\n")
+    if sc.get("copied"):
+        out.append("\t})\n")
     out.append("}\n")
     return "".join(out)
+
+
+# a preliminary change that reproduces the whole closure through an expression metavariable: what the later
+# changes rewrite is then code that an earlier change produced (a copy with synthetic positions)
+C0 = "@ c0 @\nvar fn expression\n@@\n-run(fn)\n+run2(ctx, fn)\n"
 
 
 def render_change(r, k, dots):
@@ -101,6 +116,8 @@ def render_change(r, k, dots):
         out += ["-%s(x)" % r["from"], "+%s(y)" % r["from"]]
     elif r["t"] == "split":
         out += ["-%s(x, y)" % r["from"], "+pair(%s(x), %s(y))" % (r["to"], r["to"])]
+    elif r["t"] == "sren":
+        out += ["-defer %s(x)" % r["from"], "+defer %s(x)" % r["to"]]
     else:
         out += ["-%s(x)" % r["from"], "+%s(x)" % r["to"]]
     return "\n".join(out) + "\n"
@@ -147,31 +164,42 @@ def execute(ctx, scs):
     api = []
     for i, sc in enumerate(scs):
         sc["dots"] = ctx.rng.random() < 0.5
+        sc.setdefault("copied", ctx.rng.random() < 0.35)
         src = render_file(sc, ctx.rng)
         changes = [render_change(r, k + 1, sc["dots"]) for k, r in enumerate(sc["rules"])]
-        allp = "\n".join(changes)
+        pre = [C0] if sc["copied"] else []          # delivered in front of the scenario's changes, through every route
+        p0 = ["-p", "c0.patch"] if sc["copied"] else []
+        allp = "\n".join(pre + changes)
         sid = "c09-%d" % i
-        m = dict(id=sid, sc=sc, src=src, changes=changes, all=allp)
+        m = dict(id=sid, sc=sc, src=src, changes=changes, all=allp, pre=pre)
         metas.append(m)
-        pf = [dict(path="c%d.patch" % (k + 1), content=c) for k, c in enumerate(changes)]
+        pf = [dict(path="c%d.patch" % (k + 1), content=c) for k, c in enumerate(changes)] + [dict(path="c0.patch", content=C0)]
         base = [dict(path=TARGET, content=src), dict(path="all.patch", content=allp),
-                dict(path="list.txt", content="".join("c%d.patch\n" % (k + 1) for k in range(len(changes)))),
+                dict(path="list.txt", content=("c0.patch\n" if sc["copied"] else "") + "".join("c%d.patch\n" % (k + 1) for k in range(len(changes)))),
                 dict(path="rest.txt", content="".join("c%d.patch\n" % (k + 1) for k in range(1, len(changes))))] + pf
         cli.append(scenario(sid + "|one", base, ["-p", "all.patch", TARGET]))
-        cli.append(scenario(sid + "|each", base, sum((["-p", "c%d.patch" % (k + 1)] for k in range(len(changes))), []) + [TARGET]))
+        cli.append(scenario(sid + "|each", base, p0 + sum((["-p", "c%d.patch" % (k + 1)] for k in range(len(changes))), []) + [TARGET]))
         cli.append(scenario(sid + "|list", base, ["-P", "list.txt", TARGET]))
         cli.append(scenario(sid + "|stdin", base, [TARGET], stdin=allp))
         # the same change given twice is given as the same file twice
         first = {}
         for k, r in enumerate(sc["rules"]):
             first.setdefault(json.dumps(r, sort_keys=True), k + 1)
-        cli.append(scenario(sid + "|same", base, sum((["-p", "c%d.patch" % first[json.dumps(r, sort_keys=True)]] for r in sc["rules"]), []) + [TARGET]))
-        cli.append(scenario(sid + "|mixed", base, ["-p", "c1.patch"] + (["-P", "rest.txt"] if len(changes) > 1 else []) + [TARGET]))
+        cli.append(scenario(sid + "|same", base, p0 + sum((["-p", "c%d.patch" % first[json.dumps(r, sort_keys=True)]] for r in sc["rules"]), []) + [TARGET]))
+        cli.append(scenario(sid + "|mixed", base, p0 + ["-p", "c1.patch"] + (["-P", "rest.txt"] if len(changes) > 1 else []) + [TARGET]))
         api.append(dict(id=sid + "|api", op="apply", patch=allp, name="t.go", src=src))
     recs = {r["id"]: r for r in fr.run_cli(ctx, cli, "c09")}
     # chain of single-change runs, the file re-read in between
     cur = {m["id"]: m["src"] for m in metas}
     chain_fail = {}
+    batch = [scenario("%s|chainpre" % m["id"], [dict(path=TARGET, content=cur[m["id"]]), dict(path="c.patch", content=C0)], ["-p", "c.patch", TARGET])
+             for m in metas if m["pre"]]
+    if batch:
+        for r in fr.run_cli(ctx, batch, "c09-chainpre"):
+            sid = r["id"].split("|")[0]
+            if r["exit"] != 0 or r["timeout"]:
+                raise Infra("the preliminary change failed on %s: %s" % (sid, r["stderr"][:200]))
+            cur[sid] = r["content"].get(TARGET, "")
     maxn = max(len(m["changes"]) for m in metas)
     for k in range(maxn):
         batch = [scenario("%s|chain%d" % (m["id"], k), [dict(path=TARGET, content=cur[m["id"]]), dict(path="c.patch", content=m["changes"][k])],
@@ -232,6 +260,8 @@ def execute(ctx, scs):
             for e in r["events"]:
                 if e["ev"] == "change":
                     nm = e.get("name", "")
+                    if nm == "c0":
+                        continue        # the preliminary change is not one of the scenario's rules
                     ev.append(dict(k=int(nm[1:]) if nm[:1] == "c" and nm[1:].isdigit() else 0, matched="1" if e.get("matched") else "0"))
             evs.append(dict(route=route, ev=ev))
         a = apires[sid + "|api"]
